@@ -29,7 +29,8 @@ for m in ix.modules.values():
         ks = [k for k, _ in exits.narrowing_casts(_ast.Module(body=[node], type_ignores=[]))]
         if ks:
             nml[f"{m.name}.{name}"] = ks
-json.dump({"memoised": memo, "eager_rejecting_reads": eager, "narrowing_module_level": nml, "narrowing": narrow, "decorators": decos, "instance_state": exits.instance_state(ix), "_comment": "pinned tree: function -> subjects (root symbols) of its rejection conditions (raise path conditions, assert tests); `readable` is for humans",
+md = {q: sorted({(p_, h_.split(":")[0]) for p_, h_ in exits.mutable_default_leaks(f.node)}) for q, f in sorted(ix.functions.items()) if exits.mutable_default_leaks(f.node)}
+json.dump({"memoised": memo, "mutable_defaults": md, "eager_rejecting_reads": eager, "narrowing_module_level": nml, "narrowing": narrow, "decorators": decos, "instance_state": exits.instance_state(ix), "_comment": "pinned tree: function -> subjects (root symbols) of its rejection conditions (raise path conditions, assert tests); `readable` is for humans",
            "commit": os.popen(f"git -C {repo} rev-parse --short HEAD").read().strip(), "functions": out, "readable": readable},
           open(os.path.join(ROOT, "reference", "exits.json"), "w"), indent=0)
 print(len(memo), "memoised functions with mutable results;", len(out), "functions,", sum(1 for v in out.values() if v), "with rejection conditions,", sum(len(v) for v in out.values()), "atoms")
